@@ -333,14 +333,14 @@ def main(ctx, prop):
                                                     files=dict(device=st_['device'], netspoc=st_['netspoc']), stdout=st_['stdout'],
                                                     oracle='step_scan of Cisco.%sAclCheck' % ('Ios' if st_['family'] == 'IOS' else 'Asa')),
                                         finding=st_['finding'], key='corestep'))
-        if prop in ('C01', 'C02', 'C14'):
-            # route commands of one VRF against Cisco/Routes.v (exact), for both families
+        if prop in ('C01', 'C02', 'C14', 'C07'):
+            # route commands against Cisco/Routes.v (exact), for both families; IOS with VRFs, also VRFs the target does not mention (C07)
             from vlib import routecheck
             nr, rbad = routecheck.check(ctx, 60 if q == 0 else 1500)
             extra['route_cases'] = nr
             for b in rbad:
                 if b.get('impl_diverges'):
-                    failing.append(dict(what='%s routes: the printed route commands are refused by the routing table or do not end in the target routes' % b['family'],
+                    failing.append(dict(what='%s routes: the printed route commands are refused by the routing table or do not end in the target routes plus the untouched routes of VRFs the target does not mention' % b['family'],
                                         replay=dict(property=prop, model=b['family'], command='drc -q device code/router',
                                                     files=dict(device=b['device'], netspoc=b['netspoc']), stdout=b.get('stdout')), finding=None, key='routes'))
                 else:
